@@ -60,7 +60,8 @@ type c15ConsumerOut struct {
 	DRStarted       int64   `json:"dr_started"`
 	DespawnMs       float64 `json:"despawn_ms"`
 	Received        []int64 `json:"received"`
-	Drained         bool    `json:"drained"` // read until the channel was closed
+	Drained         bool    `json:"drained"`     // read until the channel was closed
+	ReaderDone      bool    `json:"reader_done"` // after DespawnOutput returned the reader saw the channel closed within the bound
 	Panic           string  `json:"panic"`
 }
 
@@ -359,6 +360,7 @@ func c15RunScenario(sc c15Scenario) (res c15ScenarioOut) {
 			close(release)
 			select {
 			case <-readerDone:
+				o.ReaderDone = true
 			case <-time.After(bound):
 				abandon(fmt.Sprintf("channel of consumer %d was not closed within %v after DespawnOutput returned", ci, bound))
 			case <-abort:
